@@ -229,6 +229,41 @@ pub fn run(run: &Run) {
         }
     });
     run.bound("smooth catalogue", "20 analytic integrands × both orientations × 67 panel counts × 3 tolerances");
+    // smooth integrands that converge only in the last levels of a 17..20-level budget (w·(b−a) ≈ 10⁴ rad)
+    {
+        let cases: Vec<(f64, f64, f64, f64)> = vec![(20.0, -1000.0, 1000.0, 1e-9), (10.0, -1000.0, 1000.0, 1e-9), (40.0, -1000.0, 1000.0, 1e-6), (25.0, -137.5, 864.25, 1e-9), (20.0, 1000.0, -1000.0, 1e-9), (7.0, 0.0, 3000.0, 1e-8)];
+        cases.par_iter().for_each(|&(w, a, b, eps)| {
+            for nmax in 17..=20usize {
+                run.case();
+                run.nontrivial(1);
+                let exact = ((w * b).sin() - (w * a).sin()) / w;
+                // the integrand is entire; once the panel width is below 1/w the extrapolation converges to rounding,
+                // which all four budgets allow (2^16 panels and more)
+                let tol = 10.0 * eps * exact.abs().max(1.0) + 1e-10;
+                // judged only where the budget suffices: the textbook tableau with this many levels is itself within eps
+                let f = |x: f64| (w * x).cos();
+                let mut row: Vec<f64> = vec![0.5 * (b - a) * (f(a) + f(b))];
+                let mut panels = 1usize;
+                for _lvl in 1..nmax {
+                    panels *= 2;
+                    let h = (b - a) / panels as f64;
+                    let mid: f64 = (0..panels / 2).map(|i| f(a + (2 * i + 1) as f64 * h)).sum();
+                    let mut next = vec![0.5 * row[0] + h * mid];
+                    for m in 1..=row.len() {
+                        let p4 = 4f64.powi(m as i32);
+                        next.push((p4 * next[m - 1] - row[m - 1]) / (p4 - 1.0));
+                    }
+                    row = next;
+                }
+                if !((row[row.len() - 1] - exact).abs() <= eps * exact.abs().max(1.0)) {
+                    run.skip("budget too small for this integrand (textbook tableau not within eps)");
+                    continue;
+                }
+                run.regime("romberg-late-convergence-judged");
+                judge(run, "romberg/tolerance/late-convergence", guard(|| romberg(move |x| (w * x).cos(), a, b, eps, nmax)), exact, tol, &|| format!("romberg(cos({}x), a={}, b={}, eps={:e}, nmax={})", w, a, b, eps, nmax));
+            }
+        });
+    }
     // narrow intervals on which the integrand is large: the width is of the order of the tolerance
     // or below it, the integral is not
     {
